@@ -216,7 +216,7 @@ class World:
             nxt = peek(self.env)
             if nxt < float("inf"):
                 ops.append(("adv",))
-            if self.timed:
+            if self.timed and not self.spec.get("notime"):
                 g = self.grid
                 t = (math.floor(self.now / g + 1e-9) + 1) * g
                 if t < nxt - 1e-9:
